@@ -106,18 +106,32 @@ def signature_index(trees):
             return None
         ps = [x.arg for x in a.args]
         return ps[1:] if skip_self else ps
+
+    def defaults_of(fn):
+        a = fn.args
+        out = {}
+        for p_, d_ in zip([x.arg for x in a.args][len(a.args) - len(a.defaults):], a.defaults):
+            if isinstance(d_, ast.Constant):
+                out[p_] = repr(d_.value)
+        for p_, d_ in zip([x.arg for x in a.kwonlyargs], a.kw_defaults):
+            if d_ is not None and isinstance(d_, ast.Constant):
+                out[p_] = repr(d_.value)
+        return out
     for tree in trees:
         for n in tree.body:
             if isinstance(n, (ast.FunctionDef, ast.AsyncFunctionDef)):
                 put(n.name, params_of(n, False))
+                put(("#defaults", n.name), defaults_of(n))
             elif isinstance(n, ast.ClassDef):
                 for m_ in n.body:
                     if isinstance(m_, (ast.FunctionDef, ast.AsyncFunctionDef)):
                         decs = [dotted(d.func if isinstance(d, ast.Call) else d) for d in m_.decorator_list]
                         if m_.name == "__init__":
                             put(n.name, params_of(m_, True))
+                            put(("#defaults", n.name), defaults_of(m_))
                         if "staticmethod" not in decs and "property" not in decs:
                             put((n.name, m_.name), params_of(m_, True))
+                            put(("#defaults", n.name, m_.name), defaults_of(m_))
     return {k: v for k, v in idx.items() if v is not None}
 
 
